@@ -780,6 +780,23 @@ def run_case(case, rep, scratch):
                           + (":keys=shuffled" if st.get("key_order") else ""), "custom rows are returned",
                           case, observed=s_a, expected=rows)
 
+    if mdl["kind"] == "refuse":
+        # settings outside the documented domain that happened to go through (e.g. pyDOE3's correlation criterion with
+        # two points works or raises depending on the draw): the design returned was judged above, nothing is
+        # promised about further generations
+        rep.count("accepted_outside_documented_domain")
+        return
+
+    def again(lib, ds, what):
+        """A further generation with the same valid settings: it must succeed like the first one."""
+        try:
+            return np.asarray(lib.compute_doe(ds, **materialize(case, scratch)))
+        except Exception as e:  # the first generation succeeded: an exception here is a reproducibility failure
+            rep.violation(f"C14:{algo}:exception-on-repeated-generation:{type(e).__name__}:{what}:{sk}:{sf}",
+                          "same algorithm, settings and seed give the same samples", case,
+                          observed=f"{type(e).__name__}: {str(e)[:300]}", expected="the samples of the first call")
+            return None
+
     # ---- unit samples from a second fresh instance; image under the reference map
     ds_b = build_space(space, flag0, warm)
     lib_b = fresh(algo)
@@ -825,7 +842,9 @@ def run_case(case, rep, scratch):
         if bad is not None:
             # is it the map, or the reproducibility of the unit samples?
             ds_c = build_space(space, flag0, warm)
-            s_c = np.asarray(fresh(algo).compute_doe(ds_c, **materialize(case, scratch)))
+            s_c = again(fresh(algo), ds_c, "fresh-instance")
+            if s_c is None:
+                return
             if s_c.shape != s_a.shape or not np.array_equal(s_c, s_a):
                 rep.violation(f"C14:{algo}:not-reproducible:fresh-instances:{sk}:{sf}",
                               "same algorithm, settings and seed give the same samples", case,
@@ -839,13 +858,17 @@ def run_case(case, rep, scratch):
     rep.count("reproducibility_oracle_evaluations")
     ds_c = build_space(space, flag0, warm)
     lib_c = fresh(algo)
-    s_c = np.asarray(lib_c.compute_doe(ds_c, **materialize(case, scratch)))
+    s_c = again(lib_c, ds_c, "fresh-instance")
+    if s_c is None:
+        return
     if s_c.shape != s_a.shape or not np.array_equal(s_c, s_a):
         rep.violation(f"C14:{algo}:not-reproducible:fresh-instances:{sk}:{sf}",
                       "same algorithm, settings and seed give the same samples", case, observed=s_c, expected=s_a)
     if sk != "default":
-        s_a2 = np.asarray(lib_a.compute_doe(ds_a, **materialize(case, scratch)))
-        s_a3 = np.asarray(lib_a.compute_doe(build_space(space, flag0, warm), **materialize(case, scratch)))
+        s_a2 = again(lib_a, ds_a, "same-instance")
+        s_a3 = again(lib_a, build_space(space, flag0, warm), "same-instance")
+        if s_a2 is None or s_a3 is None:
+            return
         rep.count("same_instance_repeats_checked")
         if algo in RANDOMISED and sk == "explicit":
             rep.count("same_instance_repeats_with_explicit_seed")
@@ -856,9 +879,14 @@ def run_case(case, rep, scratch):
                               observed=rerun, expected=s_a)
                 break
     elif algo in RANDOMISED and n_got:
-        s_a2 = np.asarray(lib_a.compute_doe(ds_a, **materialize(case, scratch)))
-        if not np.array_equal(s_a2, s_a):
-            rep.count("default_seed_advanced_between_calls")
+        try:  # another seed: nothing is promised about this call, it only documents that the default seed advances
+            s_a2 = np.asarray(lib_a.compute_doe(ds_a, **materialize(case, scratch)))
+        except Exception as e:
+            rep.observe("a-later-call-with-the-advanced-default-seed-raised", {"algo": algo, "settings": st,
+                                                                              "error": f"{type(e).__name__}: {e}"[:200]})
+        else:
+            if not np.array_equal(s_a2, s_a):
+                rep.count("default_seed_advanced_between_calls")
 
     # ---- execute on a trivial problem
     if case["mode"] == "execute":
@@ -1022,6 +1050,10 @@ def directed_cases():
     add("PYDOE_LHS", mixed, n_samples=7, random_state=12345)
     add("PYDOE_LHS", mixed, n_samples=7, random_state=0)  # refusal (PositiveInt)
     add("PYDOE_LHS", ints, n_samples=7, criterion="maximin", iterations=3, random_state=2, mode="execute")
+    # outside pyDOE3's domain (two points: correlations are +-1); goes through or raises depending on the draw
+    add("PYDOE_LHS", two, n_samples=2, criterion="corr", iterations=2)
+    add("PYDOE_LHS", two, n_samples=2, criterion="corr", iterations=2, random_state=2)
+    add("PYDOE_LHS", two, n_samples=2, criterion="corr", iterations=2, random_state=1)
     add("OT_LHSC", one_int, n_samples=1)       # u=0.5 -> 1.5: tie
     add("OT_LHSC", one_int, n_samples=2)
     add("DiagonalDOE", ints, n_samples=4, mode="execute")  # duplicates after rounding
